@@ -1,8 +1,95 @@
-import BrushVerif.Model.Wire
-/-! Driver for C15 (stub until the property's model exists). -/
+import BrushVerif.Model.Cache
+import BrushVerif.Model.Accumulate
+/-! Driver for C15.
+* `acc <lines> <table>` — `<lines>` = esc of the esc'd lines joined by newline; `<table>` = `i:j:c:c2;…` giving the
+  parse outcome of the concatenation of lines [i,j) and (c2 ≠ `-`) of the same text without its final newline.
+  Response `CH=<esc of the esc'd chunks joined by newline>`.
+* `memo <fn> <file> <cap> <M> <F> <H>` — the cache definition `<fn>`/`<file>` of `Gen.Caches`; `M` = `name:slot,…`
+  (which slot of a call `n.n.n.n` each parameter takes its value from), `F` = `call=v;…` (value of a fresh call),
+  `H` = `call,call,…`. Response: the values returned along the history, `v,v,…`. -/
 namespace BrushVerif.Drv.C15
-open BrushVerif.Wire
+open BrushVerif.Wire BrushVerif.Accumulate BrushVerif.Gen.IncompleteErrors
 
-def handle (_toks : List Str) : Str := "unimplemented".toList
+def unescList (s : Str) : List Str :=
+  let u := unesc s
+  if u.isEmpty then [] else (splitOnChar '\n' u).map unesc
+
+def escList (l : List Str) : Str := esc (joinWith ['\n'] (l.map esc))
+
+def parseOutcome (s : Str) : Option Outcome :=
+  match s with
+  | ['o', 'k'] => some .ok
+  | ['n', 'e', 'a', 'r'] => some .near
+  | ['e', 'n', 'd'] => some .atEnd
+  | 't' :: 'o' :: 'k' :: '=' :: nm => (TokErr.all.find? (fun e => e.name.toList = nm)).map .tok
+  | _ => none
+
+def range (lines : List Str) (i j : Nat) : Str := ((lines.drop i).take (j - i)).flatten
+
+def tableEntries (lines : List Str) (row : Str) : List (Str × Outcome) :=
+  match splitOnChar ':' row with
+  | [i, j, c, c2] =>
+    match parseNat? i, parseNat? j, parseOutcome c with
+    | some i, some j, some o =>
+      let s := range lines i j
+      let e1 := [(s, o)]
+      match parseOutcome c2, stripNl s with
+      | some o2, some t => (t, o2) :: e1
+      | _, _ => e1
+    | _, _, _ => []
+  | _ => []
+
+def lookupParse (tbl : List (Str × Outcome)) (s : Str) : Outcome :=
+  match tbl.find? (fun e => e.1 = s) with
+  | some e => e.2
+  | none => .near
+
+def handleAcc (ls tb : Str) : Str :=
+  let lines := unescList ls
+  let tbl := if tb = ['-'] then [] else (splitOnChar ';' tb).flatMap (tableEntries lines)
+  let ch := chunks (needsMoreInput (lookupParse tbl)) lines
+  "CH=".toList ++ escList ch
+
+/-! memo -/
+open BrushVerif.Cache
+
+def parseCall (s : Str) : List Nat := (splitOnChar '.' s).map (fun t => (parseNat? t).getD 0)
+
+def parseSlots (s : Str) : List (String × Nat) :=
+  (splitOnChar ',' s).filterMap (fun e =>
+    match splitOnChar ':' e with
+    | [n, k] => (parseNat? k).map (fun k => (String.ofList n, k))
+    | _ => none)
+
+def assignOf (slots : List (String × Nat)) (call : List Nat) : Assign := fun name =>
+  match slots.find? (fun e => e.1 = name) with
+  | some e => call.getD e.2 0
+  | none => 0
+
+def parseFresh (s : Str) : List (List Nat × Nat) :=
+  (splitOnChar ';' s).filterMap (fun e =>
+    match splitOnChar '=' e with
+    | [c, v] => (parseNat? v).map (fun v => (parseCall c, v))
+    | _ => none)
+
+def handleMemo (fn file cap m f h : Str) : Str :=
+  match BrushVerif.Gen.Caches.caches.find? (fun c => c.fn.toList = fn ∧ c.file.toList = file), parseNat? cap with
+  | some c, some cap =>
+    let slots := parseSlots m
+    let fresh := (parseFresh f).map (fun e => (c.params.map (assignOf slots e.1), e.2))
+    let fv : Assign → Nat := fun a =>
+      match fresh.find? (fun e => e.1 = c.params.map a) with
+      | some e => e.2
+      | none => 999999
+    let hist := (splitOnChar ',' h).map (fun s => assignOf slots (parseCall s))
+    let out := (runMemo fv (keyOf c.key) cap [] hist).1
+    joinWith [','] (out.map natToStr)
+  | _, _ => "no-such-cache".toList
+
+def handle (toks : List Str) : Str :=
+  match toks with
+  | [['a', 'c', 'c'], ls, tb] => handleAcc ls tb
+  | [['m', 'e', 'm', 'o'], fn, file, cap, m, f, h] => handleMemo fn file cap m f h
+  | _ => "bad-request".toList
 
 end BrushVerif.Drv.C15
